@@ -1,7 +1,9 @@
 // lib/dewey_tok_spec.rs -- the tokeniser of C01's statement as a recursive spec function over
 // the (ASCII-lower-cased) character sequence.  One clause per token class of the statement:
 //   digit run -> its decimal value;  '.', '_' and "pl" -> 0;  "alpha"/"beta"/"rc"|"pre" -> -3/-2/-1;
-//   "nb<digits>" -> sets the revision (0 when no digits);  other ASCII letter -> 0, letter value;
+//   "nb<digits>" -> sets the revision (0 when no digits);  [digit runs whose value exceeds i64::MAX - outside the
+//   statement's 18-digit domain - saturate: run_value / nb_value in lib/std_str.rs]
+//    other ASCII letter -> 0, letter value;
 //   every other character ignored.  Letters and modifiers are case-insensitive: `vtok` lower-cases first.
 pub struct Tok { pub v: Seq<int>, pub rev: int }
 
@@ -27,13 +29,13 @@ pub open spec fn tok(cs: Seq<char>, acc: Seq<int>, rev: int) -> Tok
     else {
         let n = dpl(cs) as int;
         if n > 0 {
-            if n <= cs.len() { tok(cs.skip(n), acc.push(dec_value(cs.take(n))), rev) } else { Tok { v: acc, rev } }
+            if n <= cs.len() { tok(cs.skip(n), acc.push(run_value(cs.take(n))), rev) } else { Tok { v: acc, rev } }
         }
         else if cs[0] == '.' || cs[0] == '_' { tok(cs.skip(1), acc.push(0), rev) }
         else if L_nb().is_prefix_of(cs) {
             let m = dpl(cs.skip(2)) as int;
             if 2 + m <= cs.len() {
-                tok(cs.skip(2 + m), acc, if m >= 1 { dec_value(cs.subrange(2, 2 + m)) } else { 0 })
+                tok(cs.skip(2 + m), acc, nb_value(cs.subrange(2, 2 + m)))
             } else { Tok { v: acc, rev } }
         }
         else if L_alpha().is_prefix_of(cs) { tok(cs.skip(5), acc.push(-3), rev) }
@@ -48,8 +50,13 @@ pub open spec fn tok(cs: Seq<char>, acc: Seq<int>, rev: int) -> Tok
 /// components and revision of a version string (statement of C01)
 pub open spec fn vtok(s: Seq<char>) -> Tok { tok(lower_seq(s), seq![], 0) }
 
-/// every maximal digit run is at most 18 digits long (the statement's domain)
-pub open spec fn runs_ok(cs: Seq<char>) -> bool { forall|i: int| 0 <= i <= cs.len() ==> #[trigger] dpl(cs.skip(i)) <= 18 }
+/// inside the statement's domain (digit runs of at most 18 digits) the saturating values are the plain decimal values
+pub proof fn lemma_values_in_domain(ds: Seq<char>)
+    requires all_digits(ds), ds.len() <= 18
+    ensures run_value(ds) == dec_value(ds), nb_value(ds) == (if ds.len() >= 1 { dec_value(ds) } else { 0 })
+{
+    lemma_dec_value_bound(ds);
+}
 
 pub proof fn lemma_lits()
     ensures "nb"@ == L_nb(), "alpha"@ == L_alpha(), "beta"@ == L_beta(), "rc"@ == L_rc(), "pre"@ == L_pre(), "pl"@ == L_pl()
@@ -69,7 +76,7 @@ pub proof fn lemma_tok_digits(s: Seq<char>, k: int, acc: Seq<int>, rev: int)
     requires 0 <= k <= s.len(), dpl(s.skip(k)) > 0
     ensures ({ let n = dpl(s.skip(k)) as int;
         k + n <= s.len() && boff(s, k + n) == boff(s, k) + n && 0 <= boff(s, k + n) <= encode_utf8(s).len()
-        && tok(s.skip(k), acc, rev) == tok(s.skip(k + n), acc.push(dec_value(s.skip(k).take(n))), rev) })
+        && tok(s.skip(k), acc, rev) == tok(s.skip(k + n), acc.push(run_value(s.skip(k).take(n))), rev) })
 {
     reveal(tok);
     let cs = s.skip(k);
@@ -98,7 +105,7 @@ pub proof fn lemma_tok_nb(s: Seq<char>, k: int, acc: Seq<int>, rev: int)
         k + 2 + m <= s.len()
         && boff(s, k + 2) == boff(s, k) + 2 && 0 <= boff(s, k + 2) <= encode_utf8(s).len()
         && boff(s, k + 2 + m) == boff(s, k) + 2 + m && 0 <= boff(s, k + 2 + m) <= encode_utf8(s).len()
-        && tok(s.skip(k), acc, rev) == tok(s.skip(k + 2 + m), acc, if m >= 1 { dec_value(s.skip(k + 2).take(m)) } else { 0 }) })
+        && tok(s.skip(k), acc, rev) == tok(s.skip(k + 2 + m), acc, nb_value(s.skip(k + 2).take(m))) })
 {
     reveal(tok);
     let cs = s.skip(k);
